@@ -51,6 +51,12 @@ type ChanPlan struct {
 	// CancelSend: an ending side does not wait for its own senders; it cancels their context as soon
 	// as its receiver has what it waits for, joins them, and ends the channel with its data unsent.
 	CancelSend bool `json:"cancel_send,omitempty"`
+	// RecvCtx: a receiver ([client side, server side]) passes a context of its own to every Receive:
+	// 1 = one it cancels after RecvCtxUs, 2 = a timeout context of RecvCtxUs. A Receive that returns
+	// Cancelled / Timeout for that reason is simply repeated (with a longer deadline): it must not
+	// have consumed anything.
+	RecvCtx   [2]int `json:"recv_ctx,omitempty"`
+	RecvCtxUs [2]int `json:"recv_ctx_us,omitempty"`
 }
 
 // sideEnd returns the ending action of one side (-1: none) and how many messages it waits for.
@@ -149,6 +155,7 @@ type flowRun struct {
 	panicsAtTeardown int
 	tornDown         bool
 	stranded         int
+	recvCtxExpired   int // Receive calls that ended by the receiver's own deadline and were repeated
 }
 
 func newFlowRun(p *FlowPlan) *flowRun {
@@ -393,11 +400,43 @@ func (r *flowRun) sendOne(cs *chanState, dir, k int, send func([]byte) status.St
 // channel context) until the end status.
 func (r *flowRun) recvLoop(cs *chanState, dir int, ch mpx.Channel, ctx async.Context, limit int, delayUs int, drainOnCancel bool) {
 	ds := cs.d[dir]
+	side := 1 - dir // the receiver of direction 0 is the server side
+	ownKind, ownUs := cs.plan.RecvCtx[side], cs.plan.RecvCtxUs[side]
+	if ownKind != 0 {
+		drainOnCancel = false
+	}
 	for limit < 0 || ds.recvCount < limit {
 		if delayUs > 0 {
 			hSleep(time.Duration(delayUs) * time.Microsecond)
 		}
-		data, st := ch.Receive(ctx)
+		rctx := ctx
+		var own async.Context
+		switch ownKind {
+		case 1:
+			cc := async.NewContext()
+			d := time.Duration(ownUs) * time.Microsecond
+			hGo(fmt.Sprintf("ch%d-d%d-rcancel", cs.idx, dir), func() {
+				hSleep(d)
+				cc.Cancel()
+			})
+			own, rctx = cc, cc
+		case 2:
+			own = async.TimeoutContext(time.Duration(ownUs) * time.Microsecond)
+			rctx = own
+		}
+		data, st := ch.Receive(rctx)
+		if own != nil {
+			expired := own.Done()
+			own.Free()
+			if !st.OK() && expired && (st.Code == status.CodeCancelled || st.Code == status.CodeTimeout) {
+				// the receiver's own deadline: nothing was received, try again with more patience
+				r.recvCtxExpired++
+				if ownUs < 200_000 {
+					ownUs = ownUs*2 + 1
+				}
+				continue
+			}
+		}
 		if st.OK() {
 			simrt.Logf("ch%d d%d recv #%d (%d bytes)", cs.idx, dir, ds.recvCount, len(data))
 			r.checkRecv(cs, dir, data)
